@@ -20,6 +20,7 @@ import (
 	"io"
 	"os"
 	"runtime"
+	"runtime/debug"
 	"strings"
 	"sync"
 	"ti/base"
@@ -389,6 +390,8 @@ func init() {
 	if os.Getenv("TI_VERIF_WORKER") != "1" {
 		return
 	}
+	// unbounded recursion should kill the worker quickly (the default limit is 1 GB)
+	debug.SetMaxStack(64 << 20)
 	realOut := os.Stdout
 	in := bufio.NewReaderSize(os.Stdin, 1<<20)
 	out := bufio.NewWriter(realOut)
